@@ -404,14 +404,10 @@ func (m *Manager) writeSnapshot(w io.Writer) error {
 		for _, id := range ids {
 			meta := version.ValueLogs[id]
 			metaCopy := meta
-			if meta.Valid {
-				if err := writeEdit(w, Edit{Type: EditUpdateValueLog, ValueLog: &metaCopy}); err != nil {
-					return err
-				}
-			} else {
-				if err := writeEdit(w, Edit{Type: EditDeleteValueLog, ValueLog: &metaCopy}); err != nil {
-					return err
-				}
+			// EditUpdateValueLog carries every field of the entry; EditDeleteValueLog has
+			// no offset and would reset the offset of an invalid entry on reload.
+			if err := writeEdit(w, Edit{Type: EditUpdateValueLog, ValueLog: &metaCopy}); err != nil {
+				return err
 			}
 		}
 	}
